@@ -39,6 +39,12 @@ def run(ctx):
     # S5.11 every separator character reaches the tree builder as its own token: stage 2 of the tokenizer passes complete tokens through
     # unchanged, whatever stands before or after them (the C07 R7.3 statement about complete tokens, reported here - `1;;2` has an absent
     # element only if both `;` arrive)
+    # S5.12 "further nesting arises only through parentheses": a parenthesised group reaches the tree as its own RootNode child because
+    # insert_back_prioritized attaches the node it is given - the C02 T7 decision function of the insertion procedure (push / descend /
+    # rotate / error as a function of the kinds involved), reported here: an insertion that unwraps or re-homes a group changes which
+    # elements a later operator or separator sees
+    from rules.c02 import t7
+    t7(_Renamed(ctx, 'S5.12'), prog, T)
     from rules import toksem
     try:
         toksem.check_whitespace(_OnlyInstances(ctx, 'S5.11', ['Whitespace-token']), prog, 'S5.11')
